@@ -25,7 +25,7 @@ from symx import core
 from symx.core import Ctx, Stats, explore, Inconclusive, Unsupported, PathLimit, SymBool, SymReal
 from . import lib, runner, callsym
 
-ATOM_POOL = ["(p o1)", "(p o3)", "(p k)", "(q o1 o2)", "(q o2 o2)", "(q o3 k)", "(r)", "(s u1)"]
+ATOM_POOL = ["(p o1)", "(p o3)", "(p k)", "(q o1 o2)", "(q o2 o2)", "(q o3 k)", "(r)", "(s u1)", "(m o3 o3)", "(m o3 o1)"]
 FLUENT_POOL = ["(f o1)", "(g)", "(h o2 o1)", "(h o1 o1)", "(f k)", "(f o3)"]
 GOALS = [
     [],
@@ -35,9 +35,21 @@ GOALS = [
     [["p", "o3"], ["=", ["g"], "0.5"], ["<=", ["+", ["f", "o1"], ["g"]], "10"]],
     [["q", "o2", "o2"], [">", ["h", "o1", "o1"], ["-", ["f", "k"], "1"]]],
 ]
-OBJECT_SETS = [dict(G.OBJECTS), {"o1": "t1", "o2": "t1", "o3": "t3", "u1": "t2", "u2": "t2", "o4": "t3"}]
+OBJECT_SETS = [dict(G.OBJECTS), {"o1": "t1", "o2": "t1", "o3": "t3", "u1": "t2", "u2": "t2", "o4": "t3"},
+               # objects of the root type declared before / between objects of proper types (a bare name in a typed list
+               # takes the type that follows it)
+               {"x1": "object", "o1": "t1", "o2": "t1", "o3": "t3", "u1": "t2"},
+               {"o1": "t1", "o2": "t1", "x1": "object", "o3": "t3", "x2": "object", "u1": "t2"}]
+# a predicate whose two parameters have different types (t3 is a subtype of t1): for checks of each argument position
+EXTRA_PREDICATES = [["m", "?a", "-", "t3", "?b", "-", "t1"]]
+DOMAIN_TEXT = G.domain_text([("act", [], ["and"], ["and"])], const=True, extra_predicates=EXTRA_PREDICATES)
 _N = [0]
 
+
+
+AWKWARD = (0.123456789, 1234.56789012, -0.000123456789)  # added to a counterexample's values when it does not reproduce as is:
+# a disagreement that needs many significant digits (number printing) is real all the same, and is reported with the
+# values that reproduce it
 
 def _scratch():
     _N[0] += 1
@@ -165,7 +177,7 @@ def run_task(task):
     res = {"task": task, "outcome": "held", "paths": 0, "obligations": 0, "cex": None, "reached": 0}
     stats = Stats()
     try:
-        text = G.domain_text([("act", [], ["and"], ["and"])], const=True)
+        text = DOMAIN_TEXT
         va, xf = _vars(task)
 
         def fn(ctx: Ctx):
@@ -214,7 +226,7 @@ def run_task(task):
 
 def concrete_round_trip(task, atoms, fls):
     """the unshimmed pipeline with plain floats (real repr / float)"""
-    text = G.domain_text([("act", [], ["and"], ["and"])], const=True)
+    text = DOMAIN_TEXT
     world = lib.World(text, task["objects"])
     out = {}
     try:
@@ -245,6 +257,13 @@ def _cex(ctx, res, task, va, xf, desc, neg, problems=None):
     atoms = {a: bool(z3.is_true(model.eval(v, model_completion=True))) for a, v in va.items()}
     fls = {f: lib.to_float(core.zval(model, v)) for f, v in xf.items()}
     rp = concrete_round_trip(task, atoms, fls)
+    if not rp.get("disagree"):
+        for delta in AWKWARD:
+            shifted = {k_: v_ + delta for k_, v_ in fls.items()}
+            rp2 = concrete_round_trip(task, atoms, shifted)
+            if rp2.get("disagree"):
+                rp, fls = rp2, shifted
+                break
     if rp.get("disagree"):
         res["outcome"] = "violation"
         res["cex"] = {"what": desc, "atoms": atoms, "fluents": fls, "replay": callsym._jsonable(rp),
@@ -264,7 +283,8 @@ def tasks_for(tier, seed):
     tasks.append({"atoms": ["(r)"], "fluents": [], "goal": [], "objects": OBJECT_SETS[0]})
     tasks.append({"atoms": [], "fluents": ["(g)"], "goal": GOALS[3], "objects": OBJECT_SETS[0]})
     for gi, goal in enumerate(GOALS):
-        tasks.append({"atoms": ATOM_POOL[:k_atoms], "fluents": FLUENT_POOL[: 2 + gi % 4], "goal": goal, "objects": OBJECT_SETS[gi % 2]})
+        tasks.append({"atoms": ATOM_POOL[:k_atoms], "fluents": FLUENT_POOL[: 2 + gi % 4], "goal": goal,
+                      "objects": OBJECT_SETS[gi % len(OBJECT_SETS)]})
     while len(tasks) < n:
         atoms = rng.sample(ATOM_POOL, rng.randint(1, k_atoms))
         fluents = rng.sample(FLUENT_POOL, rng.randint(0, 4))
@@ -278,7 +298,7 @@ def twin():
     from pddl_plus_parser.exporters import ProblemExporter
     from pddl_plus_parser.lisp_parsers import ProblemParser
     task = {"atoms": ["(p o1)"], "fluents": ["(g)"], "goal": GOALS[1], "objects": OBJECT_SETS[0]}
-    text = G.domain_text([("act", [], ["and"], ["and"])], const=True)
+    text = DOMAIN_TEXT
     world = lib.World(text, task["objects"])
     pb = build_problem(task, world, {"(p o1)": True}, {"(g)": 2.5})
     path = _scratch()
